@@ -204,6 +204,85 @@ def r072_impl(eng, rep, cbs, g) -> None:
     # fields / signals partition the rest
     fa, sa = arg_for(ctor, params, "fields"), arg_for(ctor, params, "signals")
     rep.check(fa is not None and sa is not None, "R07.2", f.file, f.qual, "Impl.fields / Impl.signals", "extension fields and signal blocks are both kept", "extension fields or signal blocks are dropped from the binding")
+    if fa is None or sa is None:
+        return
+    # each of the two is a *filter* of the remaining children by kind: the grammar admits
+    # (extension_field | signal_block)+ in any order, so a prefix/suffix/positional selection loses children
+    preds = {}
+    for n in f.node.body:
+        if isinstance(n, ast.FunctionDef) and len(n.body) >= 1 and isinstance(n.body[-1], ast.Return):
+            rv = n.body[-1].value
+            if isinstance(rv, ast.Call) and dotted(rv.func) == "isinstance" and len(rv.args) == 2 and len(n.args.args) == 1 and norm(rv.args[0]) == n.args.args[0].arg:
+                preds[n.name] = norm(rv.args[1]).split(".")[-1]
+
+    def last_def(name, before):
+        cands = [(st.lineno, v, st) for k, v, st in defs.values(name) if v is not None and st.lineno < before]
+        if not cands:
+            return None
+        ln, v, st = max(cands, key=lambda c: c[0])
+        if not any(st is b for b in f.node.body):
+            return None  # conditional binding is the latest: not decided here
+        return v
+
+    def kinds_of(test, var):
+        """kinds selected by a predicate expression over `var` -> (positive?, kind) or None"""
+        neg = False
+        while isinstance(test, ast.UnaryOp) and isinstance(test.op, ast.Not):
+            neg = not neg
+            test = test.operand
+        if isinstance(test, ast.Call):
+            d = dotted(test.func) or ""
+            if d == "isinstance" and len(test.args) == 2 and norm(test.args[0]) == var:
+                return (not neg, norm(test.args[1]).split(".")[-1])
+            if d in preds and len(test.args) == 1 and norm(test.args[0]) == var:
+                return (not neg, preds[d])
+        return None
+
+    def classify(e, want_kind, depth=0):
+        """-> ('ok'|'violation'|'undecided', detail)"""
+        while isinstance(e, ast.Call) and (dotted(e.func) or "") in ("dict", "list", "tuple") and len(e.args) == 1:
+            e = e.args[0]
+        if isinstance(e, ast.Name) and depth < 3:
+            v = last_def(e.id, ctor.lineno)
+            if v is None:
+                return "undecided", "binding of %s not resolved" % e.id
+            return classify(v, want_kind, depth + 1)
+        sel = None
+        if isinstance(e, (ast.ListComp, ast.GeneratorExp)) and len(e.generators) == 1 and isinstance(e.generators[0].target, ast.Name):
+            gnr = e.generators[0]
+            var = gnr.target.id
+            if not (isinstance(e.elt, ast.Name) and e.elt.id == var):
+                return "undecided", "comprehension transforms its elements"
+            if len(gnr.ifs) != 1:
+                return ("violation", "all remaining children are taken, whatever their kind") if not gnr.ifs else ("undecided", "several conditions")
+            sel = kinds_of(gnr.ifs[0], var)
+        elif isinstance(e, ast.Call):
+            d = (dotted(e.func) or "").split(".")[-1]
+            if d == "filter" and len(e.args) == 2:
+                if isinstance(e.args[0], ast.Name) and e.args[0].id in preds:
+                    sel = (True, preds[e.args[0].id])
+                else:
+                    return "undecided", "filter predicate not resolved"
+            elif d in ("takewhile", "dropwhile", "islice"):
+                return "violation", "%s(...) selects a prefix/suffix of the children, not every child of the kind: the grammar allows extension fields and signal blocks in any order, so those after the first child of the other kind are dropped" % d
+            else:
+                return "undecided", "built by %s" % norm(e, 40)
+        elif isinstance(e, ast.Subscript) and isinstance(e.slice, ast.Slice):
+            return "undecided", "positional slice %s of the children" % norm(e, 40)
+        else:
+            return "undecided", "not a filter of the children in a recognised form: %s" % norm(e, 50)
+        if sel is None:
+            return "undecided", "selection predicate not resolved"
+        pos, kind = sel
+        kinds = {"tuple", "SignalBlock"}
+        chosen = {kind} & kinds if pos else kinds - {kind}
+        if chosen == {want_kind}:
+            return "ok", "every child of kind %s" % want_kind
+        return "violation", "selects children of kind %s, the attribute holds kind %s" % (sorted(chosen) or [kind], want_kind)
+
+    for pname, a, want_kind in (("fields", fa, "tuple"), ("signals", sa, "SignalBlock")):
+        v, detail = classify(a, want_kind)
+        (rep.ok if v == "ok" else rep.violation if v == "violation" else rep.undecided)("R07.2", f.file, f.qual, "Impl.%s <- %s" % (pname, norm(a, 40)), detail)
     # R07.6 discriminators
     txt = norm(f.node, 4000)
     kinds = {"isinstance(x, str)": "identifier", "isinstance(x, signal_block.SignalBlock)": "signal_block", "isinstance(x, tuple)": "extension_field"}
